@@ -263,7 +263,7 @@ def concat_check(pp, case, allow_region=False):
     except prlib.ERRS:
         return None
     snaps = [snapshot(pp, x) for x in (a, b, c)]
-    sa, sb, sc = (prlib.Spec.of_real(pp, x) for x in (a, b, c))
+    sa, sb, sc = (prlib.Spec.of_start(pp, s) for s in case["objs"])
     ab = a + b
     exp = prlib.Spec(sa.toks, sa.names, sa.la)
     exp.merge(sb)
